@@ -151,6 +151,11 @@ impl Access {
         let from = from.min(self.cap());
         b == &snap.before[..] && a == &snap.after[..] && alloc[from..] == snap.alloc[from..]
     }
+    /// only the slack (neighbour images / canaries) equal to the snapshot?
+    pub fn slack_ok(&self, snap: &Frame) -> bool {
+        let (b, a) = self.slack();
+        b == &snap.before[..] && a == &snap.after[..]
+    }
     pub fn begin_op(&self) {
         self.refused_now.set(false);
         self.limit_now.set(false);
